@@ -4,17 +4,17 @@
 set -e
 cfg="$1"
 if [ "$cfg" = "ocmc" ]; then
-  cd /verif/engines/ocmc && CARGO_NET_OFFLINE=true CARGO_TARGET_DIR=/verif/target/ocmc cargo build --offline --release 2>&1
+  cd /verif/engines/ocmc && CARGO_NET_OFFLINE=true CARGO_TARGET_DIR=${VERIF_TARGET:-/verif/target}/ocmc cargo build --offline --release 2>&1
   exit $?
 fi
 if [ "$cfg" = "dwmc" ]; then
-  cd /verif/engines/dwmc && CARGO_NET_OFFLINE=true CARGO_TARGET_DIR=/verif/target/dwmc cargo build --offline --release 2>&1
+  cd /verif/engines/dwmc && CARGO_NET_OFFLINE=true CARGO_TARGET_DIR=${VERIF_TARGET:-/verif/target}/dwmc cargo build --offline --release 2>&1
   exit $?
 fi
 cd /verif/engines/walmc
 export CARGO_NET_OFFLINE=true
 export RUSTFLAGS="--cfg walrus_verif"
-export CARGO_TARGET_DIR=/verif/target/$cfg
+export CARGO_TARGET_DIR=${VERIF_TARGET:-/verif/target}/$cfg
 if [ "$cfg" = "asan-small" ]; then
   export WALRUS_VERIF_BLOCK_SIZE=2048 WALRUS_VERIF_BLOCKS_PER_FILE=4 WALRUS_VERIF_MAX_ALLOC=8192 WALRUS_VERIF_MAX_BATCH_BYTES=1048576
   export RUSTFLAGS="--cfg walrus_verif -Zsanitizer=address"
